@@ -47,6 +47,8 @@ def gen_cases(rng, tier):
     groute = "api" if route.startswith("api") else "potable"
     kind = rng.choice(["eam", "fs"])
     model = spec.gen_eam_model(rng, kind, groute, target="DL_POLY_EAM" if kind == "eam" else "DL_POLY_EAM_fs")
+    if i % 12 == 9:
+      model = spec.long_labels(rng, model)          # 'Zirconium_a' / 'Zirconium_b': labels alike in their first 8 and 12 characters
     if i % 12 == 7:
       model = spec.numeric_species(rng, model)      # species labelled '9', '10', '2', '100'
     if i % 12 == 3 and groute == "potable":
